@@ -222,6 +222,13 @@ def check(case, ctx):
                     fn = lambda vals=vals, ax=ax: r0.repeat(vals, axis=ax)
                 judge("a.newaxis('n', pos=%d).repeat(%s, axis=%r)" % (pos, codec.short(vals if not isinstance(vals, da.Axis) else 'Axis([1,2,3],"n")'), ax),
                       fn, ed, introduced=('n',), new_labels={'n': lab}, operands=(a, r0))
+            # a count given as a NumPy integer (n = mask.sum()): refused, or taken as the count - never as a single label
+            for lbl_, fn_ in (("a.newaxis('n', pos=%d).repeat(np.int64(3), axis='n')" % pos, lambda: r0.repeat(np.int64(3), axis='n')),
+                              ("a.newaxis('n', values=np.int64(3), pos=%d)" % pos, lambda pos=pos: a.newaxis('n', values=np.int64(3), pos=pos))):
+                res_, exc_ = ctx.call(lbl_ + base, fn_, operands=(a, r0))
+                ctx.outcomes['numpy-integer-counts'] += 1
+                if exc_ is None:
+                    judge(lbl_, lambda res_=res_: res_, ed, introduced=('n',), new_labels={'n': [0, 1, 2]}, operands=(a, r0))
         # repeating a non-singleton axis must be refused
         for i in range(nd):
             if m.shape[i] != 1:
